@@ -544,8 +544,10 @@ static void mix(uint64_t *h, const void *p, size_t n)
 static int prop_digest(const vnaproperty_t *p, uint64_t *h, int depth,
 	long *nodes)
 {
-    if (++*nodes > 200000 || depth > 200)
+    if (++*nodes > 200000)
 	return -1;
+    if (depth > 2000)
+	return -2;		/* too deep for this walker: not judged */
     if (p == NULL) {
 	mix(h, "N", 1);
 	return 0;
@@ -590,10 +592,12 @@ static int prop_digest(const vnaproperty_t *p, uint64_t *h, int depth,
 		return -1;
 	    mix(h, "l", 1);
 	    mix(h, &n, sizeof(n));
-	    for (int i = 0; i < n; ++i)
-		if (prop_digest(vnaproperty_get_subtree(p, "[%d]", i), h,
-			    depth + 1, nodes) == -1)
-		    return -1;
+	    for (int i = 0; i < n; ++i) {
+		int rc = prop_digest(vnaproperty_get_subtree(p, "[%d]", i),
+			h, depth + 1, nodes);
+		if (rc != 0)
+		    return rc;
+	    }
 	    return 0;
 	}
     default:
@@ -604,8 +608,14 @@ static int prop_digest(const vnaproperty_t *p, uint64_t *h, int depth,
 static int prop_hash(const vnaproperty_t *p, uint64_t *h)
 {
     long nodes = 0;
+    int rc;
     *h = 0xcbf29ce484222325ULL;
-    return prop_digest(p, h, 0, &nodes);
+    rc = prop_digest(p, h, 0, &nodes);
+    if (rc == -2) {
+	*h = 0;			/* every tree too deep to walk is alike */
+	rc = 0;
+    }
+    return rc;
 }
 
 /* ------------------------------------------------------------------ */
@@ -1065,7 +1075,11 @@ static void run_input(ctx_t *c, const char *b, int n, int value_idx)
 /* ------------------------------------------------------------------ */
 /* case table                                                         */
 
-enum { CT_SEED, CT_DEV1, CT_DEV2, CT_SHORT };
+enum { CT_SEED, CT_DEV1, CT_DEV2, CT_SHORT, CT_DEEP };
+
+/* deeply nested documents: shape x depth, built at run time */
+#define NDEEP_SHAPE 4
+static const int deep_n[3] = { 900, 1100, 40000 };
 
 typedef struct kase {
     int type;
@@ -1209,6 +1223,9 @@ static void build_cases(int tier)
 	    }
 	}
     }
+    for (int sh = 0; sh < NDEEP_SHAPE; ++sh)
+	for (int d = 0; d < 3; ++d)
+	    add_case(CT_DEEP, -1, sh, d, d + 1, 0);
     long ns = nshort(tier);
     for (int v = 0; v < NSVARS; ++v)
 	for (long lo = 0; lo < ns; lo += SHORT_CHUNK)
@@ -1326,6 +1343,56 @@ static void run(int tier, long idx, vf_result *r)
 	}
 	break;
 
+    case CT_DEEP:
+	{
+	    /*
+	     * collections nested 900, 1100 and 40000 deep: a flow
+	     * sequence, a flow mapping, a block sequence on one line, and
+	     * the same flow sequence as the properties of a calibration
+	     * file.  Accepted or refused, never a stack overflow.
+	     */
+	    static const char *const shn[NDEEP_SHAPE] = {
+		"flow sequences", "flow mappings", "block sequences",
+		"flow sequences as calibration-file properties" };
+	    static char what[120];
+	    int n = deep_n[k->lo], sh = k->kind;
+	    size_t cap = (size_t)n * 6 + 512, len = 0;
+	    char *buf = malloc(cap);
+	    if (buf == NULL)
+		break;
+	    if (sh == 3) {
+		len += (size_t)sprintf(buf, "#VNACal 1.0\n%%YAML 1.1\n---\n"
+			"properties: ");
+	    }
+	    if (sh == 0 || sh == 3) {
+		memset(buf + len, '[', (size_t)n); len += (size_t)n;
+		memset(buf + len, ']', (size_t)n); len += (size_t)n;
+	    } else if (sh == 1) {
+		for (int i = 0; i < n; ++i) {
+		    memcpy(buf + len, "{a: ", 4); len += 4;
+		}
+		buf[len++] = '1';
+		memset(buf + len, '}', (size_t)n); len += (size_t)n;
+	    } else {
+		for (int i = 0; i < n; ++i) {
+		    buf[len++] = '-'; buf[len++] = ' ';
+		}
+		buf[len++] = 'x';
+	    }
+	    buf[len++] = '\n';
+	    if (sh == 3)
+		len += (size_t)sprintf(buf + len, "calibrations: []\n");
+	    snprintf(what, sizeof(what), "%d %s nested in one another", n,
+		    shn[sh]);
+	    c.format = sh == 3 ? F_VNACAL : F_YAML;
+	    c.ext = sh == 3 ? "vnacal" : "yaml";
+	    c.what = what;
+	    c.pos = n;
+	    run_input(&c, buf, (int)len, 0);
+	    free(buf);
+	}
+	break;
+
     default:
 	{
 	    const svar_t *sv = &svars[k->variant];
@@ -1367,7 +1434,8 @@ static void run(int tier, long idx, vf_result *r)
 	cls[n] = '\0';
 	vf_outcome(r, "%s %s:%s", fmt_names[c.format],
 		k->type == CT_SEED ? "seed" : k->type == CT_SHORT ? "short" :
-		k->type == CT_DEV2 ? "pairs" : kind_names[k->kind],
+		k->type == CT_DEV2 ? "pairs" : k->type == CT_DEEP ? "deep" :
+		kind_names[k->kind],
 		n ? cls : "-");
     }
 }
